@@ -153,6 +153,102 @@ def cq_sc(data, out):
     return coq((bytes(data), lines, bool(out["long"]), rows, k, out["e"], facts))
 
 
+# ------------------------------------------------ bound rows of a declaration
+# Part D: the declaration under test is `p`; the descriptor block carries the atoms analysis treats
+# specially; the bound rows have every length around the arity and entries of every class the row
+# loop of symbols.desugarOneDecl distinguishes.
+DVARS = ["X", "Y", "Z", "W", "V", "U", "T"]
+W_CELLS = ["/any", "/number", "/string", ".List</number>", ".Pair</name, .List</string>>",
+           ".Map</string, .Struct</a: /number, opt /b: /string>>", ".Union</number, /string>", "fn:List(/any)",
+           ".Singleton</a>", "/foo", "X", ".Option<.List<.Pair</number, /name>>>"]
+N_CELLS = ["1", "fn:plus(1, 2)", "[/number]", ".Union<>", "fn:Pair(/any)", "1.5"]
+
+
+def decl_descrs(ar):
+    vs = DVARS[:ar]
+    mode = "mode(%s)" % ", ".join('"%s"' % "+-?"[i % 3] for i in range(ar))
+    v0, v1 = (vs + ["X"])[0], (vs + ["X", "X"])[min(1, max(ar - 1, 0))]
+    return ["", 'doc("d")', ", ".join('arg(%s, "a")' % v for v in vs) or 'doc("d", "e")', mode, "extensional()",
+            "external(), " + mode, "private()", "synthetic()", "desugared()", "deferred(), " + mode, "@temporal",
+            "reflects(/x)", "fundep([%s], [%s])" % (v0, v1), 'fundep([%s], [%s]), merge([%s], "m")' % (v0, v1, v1),
+            'name("x")', "foo(1)", "synthetic(), desugared()", 'doc("d"), synthetic(), ' + mode, "external()", "internal:maybe_temporal()"]
+
+
+def row_variants(ar):
+    """Rows as lists of (class, text): lengths around the arity x where the one entry that is not a plain
+    well-formed bound sits. class: W, Su (declared unary predicate), Sn (undeclared), Sp (the predicate itself), N."""
+    out = []
+    for n in sorted(set(x for x in (0, ar - 1, ar, ar + 1, ar + 2) if x >= 0)):
+        base = [("W", W_CELLS[(i + n) % len(W_CELLS)]) for i in range(n)]
+        out.append(base)
+        if n >= 1:
+            for pos, cell in ((n - 1, ("Sn", '"nosuch"')), (0, ("Su", '"u"')), (n - 1, ("N", N_CELLS[n % len(N_CELLS)])),
+                              (0, ("N", N_CELLS[(n + 1) % len(N_CELLS)])), (n - 1, ("Sp", '"p"'))):
+                r = list(base)
+                r[pos] = cell
+                out.append(r)
+    return out
+
+
+def decl_case(ar, descr, rows):
+    vs = DVARS[:ar]
+    src = ""
+    if any(k == "Su" for r in rows for k, _ in r):
+        src += "Decl u(X) bound [/number].\nu(1).\n"
+    temporal = "@temporal" in descr          # `temporal` is a keyword of the grammar, not a descriptor atom
+    descr = ", ".join(d for d in descr.split(", ") if d != "@temporal")
+    src += "Decl p(%s)%s%s%s.\n" % (", ".join(vs), " temporal" if temporal else "", " descr [%s]" % descr if descr else "",
+                                   "".join(" bound [%s]" % ", ".join(t for _, t in r) for r in rows))
+    src += "p(%s).\n" % ", ".join(["1"] * ar)
+    return {"src": src, "pred": "p", "ar": ar, "descr": descr, "rows": [[k for k, _ in r] for r in rows]}
+
+
+def gen_decl_cases(rng, quick, nrandom):
+    cases = []
+    for ar in range(4):
+        good = [("W", W_CELLS[i % len(W_CELLS)]) for i in range(ar)]
+        variants = row_variants(ar)
+        for di, descr in enumerate(decl_descrs(ar)):
+            cases.append(dict(decl_case(ar, descr, []), shape="exhaustive"))
+            for vi, r in enumerate(variants):
+                cases.append(dict(decl_case(ar, descr, [r]), shape="exhaustive"))
+                if quick:        # two rows: the odd one first or second, alternating
+                    cases.append(dict(decl_case(ar, descr, [good, r] if (vi + di) % 2 else [r, good]), shape="exhaustive"))
+                else:
+                    cases.append(dict(decl_case(ar, descr, [good, r]), shape="exhaustive"))
+                    cases.append(dict(decl_case(ar, descr, [r, good]), shape="exhaustive"))
+            if not quick:
+                for r1 in variants[::3]:
+                    for r2 in variants[1::4]:
+                        cases.append(dict(decl_case(ar, descr, [r1, r2]), shape="exhaustive"))
+    nexh = len(cases)
+    for _ in range(nrandom):
+        ar = rng.choice([0, 1, 1, 2, 2, 3, 4, 6])
+        ds = decl_descrs(ar)
+        descr = ", ".join(d for d in rng.sample(ds, rng.choice([1, 1, 2, 3])) if d)
+        variants = row_variants(ar)
+        rows = [rng.choice(variants) for _ in range(rng.choice([0, 1, 2, 2, 3, 5]))]
+        cases.append(dict(decl_case(ar, descr, rows), shape="random"))
+    return cases, nexh
+
+
+def cq_decl(case, out):
+    """Entry classes as the model names them: 0 CW, 1 CRefOk, 2 CRefSv, 3 CRefCy, 4 CBad. A reference to the
+    declared unary predicate u desugars (1); an undeclared name is a saved error (2); the predicate's own
+    name is a cycle when it is unary (3) and an unknown unary predicate otherwise (2)."""
+    ar = case["ar"]
+    code = {"W": 0, "Su": 1, "Sn": 2, "Sp": 3 if ar == 1 else 2, "N": 4}
+    k = {"ok": 0, "err": 1, "panic": 2}
+    return coq((bool(out["desugared"]), ar, [[code[c] for c in r] for r in case["rows"]], bool(out["e_len"]), bool(out["e_wf"]),
+                k[out["direct"]], k[out["pipe"]]))
+
+
+def decl_structure_ok(case, out):
+    """The parser must have produced the declaration the generator wrote (arity, rows, entry classes)."""
+    want = [[{"W": "W", "N": "N"}.get(c, "S") for c in r] for r in case["rows"]]
+    return out.get("found") and out["arity"] == case["ar"] and out["rows"] == want
+
+
 # ----------------------------------------------------------------- fuzz loop
 def _limits():
     resource.setrlimit(resource.RLIMIT_AS, (8 << 30, 8 << 30))   # an allocation bomb kills the harness, not the machine
@@ -278,7 +374,7 @@ def corpus_cases():
 
 
 def run(ck):
-    parts = os.environ.get("C10_PARTS", "ABC")     # development switch only; registered commands run all parts
+    parts = os.environ.get("C10_PARTS", "ABCD")    # development switch only; registered commands run all parts
     ck.obligations()
     ck.build_harness()
     rng = ck.rng
@@ -291,7 +387,7 @@ def run(ck):
         nviol[0] += 1
 
     # ---------------- 0. regression corpus through the staged pipeline first (tolerates a harness crash)
-    fcorpus = [(c["kind"], unb64(c["b"]), c["_path"]) for c in corpus]
+    fcorpus = [("unit" if c["kind"] == "decl" else c["kind"], unb64(c["b"]), c["_path"]) for c in corpus]
     fouts = replay_cases(ck, [(k, b) for k, b, _ in fcorpus])
     ffails = []
     fatal = set()
@@ -403,6 +499,54 @@ def run(ck):
             rep["no_longer_checks"] = "correspondence Run.C10.judge_sc: model coq/Front/SimpleColumn.v vs factstore.SimpleColumn.ReadInto (theorem sc_read_total no longer tied to the code)"
             violation(rep, "no-failing-input-found")
 
+    # ---------------- D. bound rows of a declaration: CheckDecl's row test, the row loop of desugarOneDecl
+    #                    and the analysis pipeline vs the model (coq/Front/DeclRows.v)
+    dcases, dexh = gen_decl_cases(rng, ck.quick, ck.n(600, 12000) if "D" in parts else 0)
+    for c in corpus:
+        if c["kind"] == "decl":
+            dcases.insert(0, dict(c["case"], shape="corpus"))
+    ck.log("D: %d declarations" % len(dcases))
+    douts = ck.run_go("c10_decl", [{"src": c["src"], "pred": c["pred"]} for c in dcases])
+    dterms, didx = [], []
+    dstats = {"check": {}, "direct": {}, "pipe": {}, "descr_flags": {"synthetic": 0, "desugared": 0}, "row_len_vs_arity": {"shorter": 0, "equal": 0, "longer": 0}}
+    for i, (c, o) in enumerate(zip(dcases, douts)):
+        if "out" not in o:
+            violation({"property": PID, "part": "declaration rows", "kind": "decl", "b": b64(c["src"].encode()), "text": c["src"], "case": c, "impl": o,
+                       "verdict": "harness-level panic while analysing a declaration"})
+            continue
+        o = o["out"]
+        if o.get("parse_err") or not decl_structure_ok(c, o):
+            raise RuntimeError("part D: generated declaration was not parsed as written: %r -> %r" % (c, o))
+        for key in ("direct", "pipe"):
+            dstats[key][o[key]] = dstats[key].get(o[key], 0) + 1
+        dstats["check"][o["check_k"]] = dstats["check"].get(o["check_k"], 0) + 1
+        dstats["descr_flags"]["synthetic"] += bool(o["synthetic"])
+        dstats["descr_flags"]["desugared"] += bool(o["desugared"])
+        for r in c["rows"]:
+            dstats["row_len_vs_arity"]["shorter" if len(r) < c["ar"] else "equal" if len(r) == c["ar"] else "longer"] += 1
+        dterms.append(cq_decl(c, o))
+        didx.append(i)
+    dverd = ck.run_coq(PID, "judge_decl", dterms, shard=max(400, len(dterms) // 8 + 1), tag="d")
+    ddis = 0
+    for i, t, v in zip(didx, dterms, dverd):
+        if v == 0:
+            continue
+        ddis += 1
+        if nviol[0] >= 5:
+            nviol[0] += 1
+            continue
+        c, o = dcases[i], douts[i]["out"]
+        rep = {"property": PID, "part": "declaration rows", "kind": "decl", "b": b64(c["src"].encode()), "text": c["src"], "case": c, "impl": o,
+               "model": ck.coq_show(PID, "show_decl " + t)[:400]}
+        if v == 2:
+            rep["verdict"] = "analysis panicked on a parsed declaration: %s at %s (property violated)" % (o.get("pipe_msg"), o.get("pipe_where"))
+            violation(rep)
+        else:
+            rep["verdict"] = "CheckDecl's row test or the row loop of symbols.CheckAndDesugar differ from the model; the pipeline returned"
+            rep["no_longer_checks"] = ("correspondence Run.C10.judge_decl: model coq/Front/DeclRows.v vs analysis.CheckDecl / symbols.desugarOneDecl "
+                                       "(theorems desugar_rows_total, front_decl_total no longer tied to the code)")
+            violation(rep, "no-failing-input-found")
+
     # ---------------- C. fuzz loop over the whole front end (search, not proof)
     ck.log("C: fuzz loop")
     nproc = 8 if ck.quick else 16
@@ -458,22 +602,26 @@ def run(ck):
                    "occurrences": len(fl), "verdict": "%s: %s at stage %s (property violated)" % (f["kind"], f["what"], f["stage"])})
     probes(ck, known_hits)
 
-    total = len(ucases) + len(scases) + agg["done"] + len(fcorpus)
+    total = len(ucases) + len(scases) + len(dcases) + agg["done"] + len(fcorpus)
     cov = {
         "evaluations": total,
-        "distinct_nontrivial": len(set(u[0] for u in ucases if b"\\" in u[0])) + len(set(d for _, d in scases if d.count(b"\n") >= 2)) + agg["distinct"],
+        "distinct_nontrivial": len(set(u[0] for u in ucases if b"\\" in u[0])) + len(set(d for _, d in scases if d.count(b"\n") >= 2))
+                               + len(set(c["src"] for c in dcases if c["rows"])) + agg["distinct"],
         "rule": "A: Unescape inputs (distinct strings containing a backslash); B: fact files with a header and at least one more line (distinct); "
-                "C: fuzz inputs distinct by hash per process. A and B are judged against the Coq model, C only for panic/timeout",
+                "D: declarations with at least one bound row (distinct source text); C: fuzz inputs distinct by hash per process. "
+                "A, B and D are judged against the Coq model, C only for panic/timeout",
         "exhaustive": True,
-        "exhaustive_scope": "A: every string of length <= 3 over the %d-byte alphabet %s (thorough: also length %d over the 12-byte sub-alphabet) in both modes (%d cases); B: every file of <= %d lines over %d lines %s (%d cases). C (fuzz) is NOT exhaustive."
-                            % (len(ALPHA), [hex(a) for a in ALPHA], exh_len, nexh, ck.n(3, 4), len(SC_EXH), SC_EXH, nsc_exh),
+        "exhaustive_scope": "A: every string of length <= 3 over the %d-byte alphabet %s (thorough: also length %d over the 12-byte sub-alphabet) in both modes (%d cases); B: every file of <= %d lines over %d lines %s (%d cases); D: arity 0..3 x %d descriptor blocks (every descriptor atom analysis treats specially) x {no row, one row, two rows with one well-formed row} x row lengths {0, arity-1, arity, arity+1, arity+2} x {all entries well formed, a reference to a declared / undeclared unary predicate / the predicate itself, an entry that is no bound, first or last} (%d cases; thorough: also pairs of odd rows). C (fuzz) is NOT exhaustive."
+                            % (len(ALPHA), [hex(a) for a in ALPHA], exh_len, nexh, ck.n(3, 4), len(SC_EXH), SC_EXH, nsc_exh, len(decl_descrs(2)), dexh),
         "unescape": {"cases": len(ucases), "impl_outcomes": ukinds, "disagreements": udis},
         "simple_column": {"cases": len(scases), "impl_outcomes": skinds, "error_classes": serrs, "shapes": sshapes, "disagreements": sdis},
+        "decl_rows": {"cases": len(dcases), "exhaustive_block": dexh, "checkdecl_outcomes": dstats["check"], "direct_desugar_outcomes": dstats["direct"],
+                      "pipeline_outcomes": dstats["pipe"], "descr_flags": dstats["descr_flags"], "row_len_vs_arity": dstats["row_len_vs_arity"], "disagreements": ddis},
         "fuzz": {"NOT_A_PROOF": "runtime search only: parse/analysis/engine are not modelled; absence of a failure here proves nothing",
                  "cases": agg["done"], "processes": nproc, "wall_s": round(fuzz_secs, 1), "bytes": agg["bytes"], "kinds": agg["kinds"],
                  "shapes": agg["shapes"], "stage_outcomes": agg["stats"], "failure_groups": len(groups), "timeouts_not_reproduced_alone": slow, "known_hits": known_hits,
                  "corpus_replayed": len(fcorpus), "fact_limit": 400, "per_case_deadline_ms": 10000 if ck.quick else 20000},
-        "samples": [ucases[-1][0].decode("latin-1"), scases[-1][1].decode("latin-1")] + [s.get("text", "") for s in samples[:3]],
+        "samples": [ucases[-1][0].decode("latin-1"), scases[-1][1].decode("latin-1"), dcases[-1]["src"]] + [s.get("text", "") for s in samples[:3]],
     }
     return ck.finish(cov, assumptions=[
         "PARTIAL: theorems cover ast.Unescape and the simple-column reader only (hand-written models coq/Front/*.v, tied to the Go code by differential runs)",
